@@ -266,6 +266,19 @@ def real_run_all():
         reactor.callLater(0.3, dd.callback, None)
         yield dd
         results["_fails"] = sorted(fails)
+        # a port number that is no port: an IP-literal endpoint raises OverflowError out of a timed call (logged by the
+        # reactor) and the attempt stays pending; HostnameEndpoint cuts it to 16 bits / resolves nothing for a negative one
+        n_err = len(errs)
+        bp = []
+        TCP4ClientEndpoint(reactor, "127.0.0.1", 70000).connect(protocol.Factory.forProtocol(protocol.Protocol)).addBoth(lambda r_: bp.append("literal-fired"))
+        from twisted.internet.endpoints import HostnameEndpoint
+        HostnameEndpoint(reactor, "127.0.0.1", -1).connect(protocol.Factory.forProtocol(protocol.Protocol)).addBoth(
+            lambda r_: bp.append("hostname-negative:" + (r_.type.__name__ if hasattr(r_, "type") else "connected")))
+        dd2 = defer.Deferred()
+        reactor.callLater(0.5, dd2.callback, None)
+        yield dd2
+        overflow = [e for e in errs[n_err:] if e.get("failure") is not None and e["failure"].type is OverflowError]
+        results["_badport"] = sorted(bp) + ["overflow-logged:%d" % min(1, len(overflow))]
         reactor.stop()
 
     reactor.callWhenRunning(go)
@@ -293,6 +306,36 @@ def sim_fails():
     return sorted(fails)
 
 
+def sim_badport():
+    from .simnet import SimReactor
+    from twisted.internet.endpoints import HostnameEndpoint
+    from twisted.python import log as tlog
+    errs = []
+    obs = lambda ev: errs.append(ev) if ev.get("isError") else None
+    tlog.addObserver(obs)
+    try:
+        r = SimReactor(random.Random(0))
+        bp = []
+        TCP4ClientEndpoint(r, "127.0.0.1", 70000).connect(protocol.Factory.forProtocol(protocol.Protocol)).addBoth(lambda r_: bp.append("literal-fired"))
+        HostnameEndpoint(r, "127.0.0.1", -1).connect(protocol.Factory.forProtocol(protocol.Protocol)).addBoth(
+            lambda r_: bp.append("hostname-negative:" + (r_.type.__name__ if hasattr(r_, "type") else "connected")))
+        for _ in range(200):
+            acts = r.actions()
+            if acts:
+                r.do(acts[0])
+            elif r.due():
+                r.run_due_batch()
+            else:
+                nt = r.next_timer()
+                if nt is None or nt > 0.5:
+                    break
+                r.advance_to_next()
+    finally:
+        tlog.removeObserver(obs)
+    overflow = [e for e in errs if e.get("failure") is not None and e["failure"].type is OverflowError]
+    return sorted(bp) + ["overflow-logged:%d" % min(1, len(overflow))]
+
+
 def conformance():
     # the real run mutates logs until each scenario's deferred fires; normalise afterwards
     real = {}
@@ -316,6 +359,9 @@ def conformance():
     sf = sim_fails()
     if sf != raw["_fails"]:
         bad.append("connect failures: sim=%r real=%r" % (sf, raw["_fails"]))
+    sb = sim_badport()
+    if sb != raw["_badport"]:
+        bad.append("port numbers that are no ports: sim=%r real=%r" % (sb, raw["_badport"]))
     return bad
 
 
